@@ -389,6 +389,7 @@ func (fr *Frame) step(st *State, ins ssa.Instruction) bool {
 		return false
 
 	case *ssa.Panic:
+		fr.atAnchors(st, in, false, nil)
 		if fr.contract == nil || fr.contract.Flags["may_panic"] == nil {
 			allowed := false
 			for p := fr; p != nil; p = p.parent {
